@@ -42,7 +42,8 @@ REQUIRED = ["histories", "connections_up", "connections_down",
             "connection_level_events_compared", "registry_checks_in_down_handler",
             "errors_resembling_barrier_unsupported", "messages_split_across_reads",
             "features_replies_on_stale_connections",
-            "connections_closed_again_by_a_down_handler"]
+            "connections_closed_again_by_a_down_handler",
+            "histories_with_another_nexus_configuration"]
 TIMEOUT = {"quick": 900, "thorough": 7200}
 
 # (datapath id 0 is a legal id: code that tests "if dpid:" instead of
@@ -324,6 +325,21 @@ PeerModel.lost_before_complete = _lbc
 
 def run_history (case, rep):
   w = _world["w"]
+  core = w.core
+  # how the nexus is told to configure a new switch (set_config / delete all
+  # flows before the barrier, either, or neither); the barrier is owed anyway
+  saved_cfg = (core.openflow.miss_send_len, core.openflow.clear_flows_on_connect)
+  cfg = case.get("nexus_cfg")
+  if cfg is not None:
+    core.openflow.miss_send_len, core.openflow.clear_flows_on_connect = cfg
+    rep.count("histories_with_another_nexus_configuration")
+  try:
+    return _run_history(case, rep, w)
+  finally:
+    core.openflow.miss_send_len, core.openflow.clear_flows_on_connect = saved_cfg
+
+
+def _run_history (case, rep, w):
   mon = Monitor(rep, case, w)
   core = w.core
   rep.count("histories")
@@ -561,7 +577,8 @@ def do_case (case, rep):
     rep.violation("C09 harness-visible exception",
                   traceback.format_exc()[-900:], case)
     nt = True
-  rep.case(repr((case["ops"], case.get("reclose"))).encode(), nontrivial=bool(nt))
+  rep.case(repr((case["ops"], case.get("reclose"), case.get("nexus_cfg"))).encode(),
+           nontrivial=bool(nt))
 
 
 def gen_single (shard, nshards):
@@ -681,6 +698,8 @@ def run (spec, rep):
   n = 0
   for case in g:
     n += 1
+    if n % 4 == 1:
+      case["nexus_cfg"] = [(None, False), (None, True), (0xffff, False), (0, True)][(n // 4) % 4]
     if n % 3 == 0:
       case["reclose"] = [("nexus", "msg"), ("con", "msg"), ("nexus", "disconnect"),
                          ("con", "disconnect")][(n // 3) % 4]
